@@ -20,7 +20,7 @@ CLAIMED = {
   note=TRUST + "'bounded strictly increasing rank => stationary' is an arithmetic step stated, not machine-checked; graph-domain, powerset, term-domain widenings and inter-procedural recursion widening are not covered; thresholds: |T| <= 6 (bounded), rational bounds bounded (small numerators/denominators); unit fixvisit is bounded (<= 3 ascending passes, <= 2 descending, <= 2 predecessors, cycle body empty or one vertex) and has no native replay."),
  'C06': dict(
   text="Second sentence of the property only: proof that interleaved_fwd_fixpoint_iterator::extrapolate returns exactly the JOIN of its arguments (one application, nothing else) while iteration <= widening_delay, and otherwise the widening (or the widening with the thresholds of that loop head when thresholds are enabled), and that refine() applies the meet in the first descending iteration and the narrowing afterwards; the value type is an opaque ghost whose lattice operations are distinct uninterpreted symbols, so 'equal results' means 'this operation, these operands, once'. Plus (unit fixvisit, BOUNDED, ghost call-order monitor on the real wto_iterator::visit(wto_cycle_t&) / visit(wto_vertex_t&)): extrapolate is called with iteration = 1, 2, ... = the number of times the head has been iterated, only after new_pre <= pre answered no on exactly the values handed over; the first pass starts from the join of exactly the predecessors that are not nested deeper than the head (or the start block's stored value), strengthened by the head's assumption; components are skipped until the start block is met; refine gets iteration 1, 2, ... and at most descending_iterations calls; the stored pre-invariant of the head ends as the post-fixpoint or its last refinement. The first sentence as a whole (the iterator returns the exact least solution on finite-height types) additionally needs the WTO (C07) and is NOT decided.",
-  note=TRUST + "Assumed: unordered_map::find on the thresholds table is a finite-map lookup (model); the table holds an entry for the head when thresholds are on; logging/statistics are effect-free (CrabVerbosity == 0 is a precondition). Unit fixvisit: bounded (loops unwound: <= 3 ascending passes, <= 2 descending, <= 2 predecessors, cycle body empty or one vertex), compute_post and the WTO's construction of nestings assumed (the invariant-table accessors are proved in unit fixtab, the nesting comparison is checked, bounded, in unit wtonest), no native replay. Unit fixrun (bounded, <= 2 blocks): run(init) / run(entry, init, assumptions) / initialize_invariant_tables start the WTO walk from bottom everywhere except the start block (initial value), whatever the tables held, with the requested start block and assumption map. Not covered: the WTO construction, nested cycles, a start block that is itself a loop head (observed to lose the initial value; outside the property as stated)."),
+  note=TRUST + "Assumed: unordered_map::find on the thresholds table is a finite-map lookup (model); the table holds an entry for the head when thresholds are on; logging/statistics are effect-free (CrabVerbosity == 0 is a precondition). Unit fixvisit: bounded (loops unwound: <= 3 ascending passes, <= 2 descending, <= 2 predecessors, cycle body empty or one vertex), the WTO's construction of nestings assumed (compute_post is proved in unit fixcp, the invariant-table accessors in unit fixtab, the nesting comparison is checked, bounded, in unit wtonest), no native replay. Unit fixrun (bounded, <= 2 blocks): run(init) / run(entry, init, assumptions) / initialize_invariant_tables start the WTO walk from bottom everywhere except the start block (initial value), whatever the tables held, with the requested start block and assumption map. Not covered: the WTO construction, nested cycles, a start block that is itself a loop head (observed to lose the initial value; outside the property as stated)."),
  'C20': dict(
   text="Proof that every arithmetic / comparison / bitwise / shift / conversion member of ikos::z_number and q_number (lib/bignums.cpp) is the mathematical operation GIVEN GMP's documented behaviour of each __gmpz_*/__gmpq_* entry point it calls (truncating / and %, floor >>, two's-complement bitwise operations on either sign, int64/uint64 conversions in all branches, floor/ceil rounding of rationals, fill_ones with an inductive loop contract), and that crab::safe_i64 (lib/safeint.cpp) returns the exact result whenever it returns and reports overflow exactly when the 128-bit result does not fit; plus (unit lincst) constraint negation / tautology / contradiction tests over an abstract valuation, and (bounded, <= 2 terms, real boost flat_map) the evaluation homomorphism of linear_expression sum / difference / scaling / renaming; linear_constraint_system operator+= / is_false / is_true (bounded, <= 2 constraints of <= 1 term).",
   note=TRUST + "models/gmpmodel.c: GMP entry points modelled with their documented meaning on 2-limb values (|v| < 2^126; products, quotients and rational canonicalisation partly uninterpreted with axioms); magnitudes beyond are assumed to behave alike. Not decided: exact STRING round trips (get_str / string constructors are GMP externals), hash, get_double; linear_constraint_system::normalize() is NOT decided (contract written, no back end decides it even for 2 constraints). safe_i64 division requires a non-zero divisor."),
